@@ -317,7 +317,7 @@ def items_for(tier, which="viol"):
         elif op == "downsample":
             prms = [dict(tfactor=2, ffactor=2), dict(tfactor=3, ffactor=1)] if quick else [dict(tfactor=1, ffactor=2), dict(tfactor=2, ffactor=1), dict(tfactor=2, ffactor=2), dict(tfactor=3, ffactor=1), dict(tfactor=3, ffactor=2)]
         elif op == "subband":
-            prms = [dict(nsub=2)] if quick else [dict(nsub=1), dict(nsub=2), dict(nsub=4)]
+            prms = [dict(nsub=2), dict(nsub=4)] if quick else [dict(nsub=1), dict(nsub=2), dict(nsub=4)]
         elif op == "remove_zerodm":
             prms = [dict(bpass=[2, 6, 8])] if quick else [dict(bpass=[2, 6, 8]), dict(bpass=[1, 1, 1]), dict(bpass=[5, 0, 3])]
         else:
